@@ -430,9 +430,11 @@ fn run_one(payload: &str) -> String {
         return "bad-case".into();
     }
     let (cfg, ress, fns, reqs) = (p[0], p[1], p[2], p[3]);
-    let loc: LanguageIdentifier = match kv(cfg, "loc").parse() {
-        Ok(l) => l,
-        Err(_) => return "bad-case".into(),
+    // `loc=a+b+c`: the bundle's locale CHAIN; the formatter memoizer (plural rules included) is bound to the first
+    let chain: Result<Vec<LanguageIdentifier>, _> = kv(cfg, "loc").split('+').map(|l| l.parse::<LanguageIdentifier>()).collect();
+    let chain = match chain {
+        Ok(c) if !c.is_empty() => c,
+        _ => return "bad-case".into(),
     };
     let reqs: Option<Vec<Req>> = reqs.split(',').map(parse_req).collect();
     let reqs = match reqs {
@@ -442,7 +444,7 @@ fn run_one(payload: &str) -> String {
     let threads: usize = kv(cfg, "th").parse().unwrap_or(1);
     let outs: Vec<String> = if kv(cfg, "fl") == "conc" {
         let mut b: RawBundle<FluentResource, intl_memoizer::concurrent::IntlLangMemoizer> =
-            RawBundle::new_concurrent(vec![loc]);
+            RawBundle::new_concurrent(chain.clone());
         if configure(&mut b, cfg, ress, fns).is_none() {
             return "bad-case".into();
         }
@@ -497,7 +499,7 @@ fn run_one(payload: &str) -> String {
     } else {
         let pre = kv(cfg, "pre") == "1";
         if pre {
-            if let Ok(sl) = sibling(kv(cfg, "loc")).parse::<LanguageIdentifier>() {
+            if let Ok(sl) = sibling(kv(cfg, "loc").split('+').next().unwrap_or("")).parse::<LanguageIdentifier>() {
                 let mut sb: RawBundle<FluentResource, intl_memoizer::IntlLangMemoizer> = RawBundle::new(vec![sl]);
                 if configure(&mut sb, cfg, ress, fns).is_some() {
                     for r in &reqs {
@@ -507,7 +509,7 @@ fn run_one(payload: &str) -> String {
             }
         }
         let mut b: RawBundle<FluentResource, intl_memoizer::IntlLangMemoizer> =
-            RawBundle::new(vec![loc]);
+            RawBundle::new(chain.clone());
         if configure(&mut b, cfg, ress, fns).is_none() {
             return "bad-case".into();
         }
